@@ -27,6 +27,9 @@ class Rewriter(ast.NodeTransformer):
         self.generic_visit(node)
         if isinstance(node.func, ast.Name) and node.func.id in SKIP_CALLS:
             return node
+        if self.sdict and isinstance(node.func, ast.Name) and node.func.id == 'defaultdict':
+            return ast.copy_location(
+                ast.Call(func=_name('__sx_defaultdict__'), args=node.args, keywords=node.keywords), node)
         return ast.copy_location(
             ast.Call(func=_name('__sx_call__'), args=[node.func] + node.args,
                      keywords=node.keywords), node)
@@ -110,6 +113,7 @@ def install(prefixes=('spyne',)):
     builtins.__sx_not__ = shim.sx_not
     builtins.__sx_getitem__ = shim.sx_getitem
     builtins.__sx_dict__ = shim.sx_dict
+    builtins.__sx_defaultdict__ = shim.sx_defaultdict
     sys.meta_path.insert(0, Finder(prefixes))
     sys.dont_write_bytecode = True
     for m in list(sys.modules):
